@@ -70,6 +70,27 @@ def call_prim(I, node, name, args, kwargs, st):
         else:
             yield st, SInt(z3.StrToInt(s.expr))
         return
+    if name in ('last_piece', 'head_text'):
+        sv, sep = args
+        if sv.is_vec():
+            from . import pieces
+            hp = pieces.HPieces(sv.z(), sep.z(), z3.BoolVal(False))
+            hp.vchars = list(sv.chars)
+            hp.sepc = sep.chars[0]
+            for st2, head, lastc in pieces.vec_last_split(I, st, hp):
+                if name == 'last_piece':
+                    yield st2, SStr(chars=lastc)
+                else:
+                    yield st2, SStr(chars=sv.chars[:len(sv.chars) - len(lastc)])
+            return
+        from . import pieces
+        if sv.parts is not None and SInt(sep.chars[0]).conc() == sv.parts[2]:
+            yield st, (SStr(chars=list(sv.parts[1])) if name == 'last_piece' else SStr(expr=sv.parts[0]))
+            return
+        p = pieces.HPieces(sv.expr, sep.z(), z3.BoolVal(False))
+        h, l = pieces.inst(I, st, p)
+        yield st, SStr(expr=(l if name == 'last_piece' else h))
+        return
     if name == 'seq_fold':
         yield from seq_fold(I, node, args, st)
         return
@@ -258,11 +279,11 @@ def seq_fold(I, node, args, st):
     F = _fold_ufs[short]
 
     def step_z(acc_z, x_z):
-        ck = (short, acc_z.get_id(), x_z.get_id(), id(I.base_pc))
+        ck = (short, acc_z.get_id(), x_z.get_id(), I.case_serial)
         if ck in _step_cache:
-            return _step_cache[ck]
+            return _step_cache[ck][0]
         r = _step_z(acc_z, x_z)
-        _step_cache[ck] = r
+        _step_cache[ck] = (r, acc_z, x_z)     # pin the terms: ids are recycled after GC
         return r
 
     def _step_z(acc_z, x_z):
